@@ -75,8 +75,10 @@ Theorem C07_pin_lexer_sentinel :
   lexer_leading_blank_pattern = pinned_lexer_leading_blank_pattern.
 Proof. exact (conj pin_lexer_sentinel_guard (conj pin_lexer_sentinel_pos pin_lexer_leading_blank_pattern)). Qed.
 
-(* the lexer, parser and emitter functions are, text for text, the ones the hand-written models were validated against
-   (one digest per function, comments and docstrings excluded; harness/translate/srcdigest_t.py) *)
-From OV Require Import Gen.SrcDigestGen Syn.Pins_SrcDigest.
-Theorem C07_pin_source_text : src_lexer_pinned /\ src_parser_pinned /\ src_emitter_pinned.
-Proof. exact (conj src_lexer_pinned_ok (conj src_parser_pinned_ok src_emitter_pinned_ok)). Qed.
+(* ---- source-text pins (generated by harness/pinsets.py) ---- *)
+(* every function of these modules is, text for text (comments and docstrings excluded), the one the models of this
+   property were written against and validated against: harness/translate/srcdigest_t.py, Src/Pin_*.v *)
+From OV Require Import Gen.SrcDigestGen Src.Pin_core_lexer Src.Pin_core_parser Src.Pin_core_emitter Src.Pin_core_ast_nodes Src.Pin_mcp_write Src.Pin_mcp_validate.
+Theorem C07_pin_source_text :
+  src_core_lexer_pinned /\ src_core_parser_pinned /\ src_core_emitter_pinned /\ src_core_ast_nodes_pinned /\ src_mcp_write_pinned /\ src_mcp_validate_pinned.
+Proof. exact (conj src_core_lexer_pinned_ok (conj src_core_parser_pinned_ok (conj src_core_emitter_pinned_ok (conj src_core_ast_nodes_pinned_ok (conj src_mcp_write_pinned_ok src_mcp_validate_pinned_ok))))). Qed.
